@@ -161,3 +161,31 @@ V("c11-prefix-literal-differs", "C11", FG, "        serial_prefix = b\"HexaryTri
 V("c11-nested-only-shortest", "C11", FG, "                shorter_lengths = [\n                    length for length in all_lengths if length < len(segment)\n                ]", "                shorter_lengths = [min(all_lengths)] if min(all_lengths) < len(segment) else []", rule="PROV6")
 V("c11-silent-copy-via-sortedset", "C11", FG, "        new_fog_prefixes = self._unexplored_prefixes.copy()", "        new_fog_prefixes = SortedSet(self._unexplored_prefixes)", expect="silent")
 V("c11-is-complete-wrong", "C11", FG, "        return len(self._unexplored_prefixes) == 0", "        return len(self._unexplored_prefixes) <= 1", rule="PROV1")
+
+# --- C12 / C13 binary ---------------------------------------------------------------------
+V("c12-new-tail-offset", "C12", BN, "                        keypath[common_prefix_len + 1 :],\n                        self._hash_and_save(encode_leaf_node(value)),", "                        keypath[common_prefix_len:],\n                        self._hash_and_save(encode_leaf_node(value)),", rule="ABS4b")
+V("c12-get-bits-swapped", "C12", BN, "            if keypath[:1] == BYTE_0:\n                return self._get(left_child, keypath[1:])\n            else:\n                return self._get(right_child, keypath[1:])",
+  "            if keypath[:1] == BYTE_0:\n                return self._get(right_child, keypath[1:])\n            else:\n                return self._get(left_child, keypath[1:])", rule="SIB4")
+V("c12-get-kv-no-prefix-test", "C12", BN, "            if keypath[: len(left_child)] == left_child:\n                return self._get(right_child, keypath[len(left_child) :])\n            else:\n                return None",
+  "            return self._get(right_child, keypath[len(left_child) :])", rule="SIB4")
+V("c12-get-leaf-ignores-rest", "C12", BN, "        if nodetype == LEAF_TYPE:\n            if keypath:\n                return None\n            return right_child", "        if nodetype == LEAF_TYPE:\n            return right_child", rule="SIB4")
+V("c12-get-missing-arm", "C12", BN, "        # Branch node descend\n        elif nodetype == BRANCH_TYPE:\n            # Keypath too short\n            if not keypath:\n                return None\n            if keypath[:1] == BYTE_0:",
+  "        # Branch node descend\n        elif nodetype == BRANCH_TYPE and keypath:\n            if keypath[:1] == BYTE_0:", expect="silent")
+V("c12-delete-not-blank", "C12", BN, "self.root_hash = self._set(self.root_hash, encode_to_bin(key), b\"\")", "self.root_hash = self._set(self.root_hash, encode_to_bin(key), None)", rule="ROUTE2")
+V("c12-delete-subtrie-flag-lost", "C12", BN, "            value=b\"\",\n            if_delete_subtrie=True,", "            value=b\"\",\n            if_delete_subtrie=False,", rule="ROUTE2")
+V("c12-exists-truthy", "C12", BN, "        return self.get(key) is not None", "        return bool(self.get(key))", rule="SIB1")
+V("c12-silent-delete-subtrie-le", "C12", BN, "            if len(keypath) < len(left_child) and keypath == left_child[: len(keypath)]:", "            if len(keypath) <= len(left_child) and keypath == left_child[: len(keypath)]:", expect="silent")
+V("c12-compress-kv-dropped", "C12", BN, "            if subnodetype == KV_TYPE:\n                return self._hash_and_save(\n                    encode_kv_node(left_child + sub_left_child, sub_right_child)\n                )\n            else:\n                return self._hash_and_save(encode_kv_node(left_child, subnode_hash))",
+  "            return self._hash_and_save(encode_kv_node(left_child, subnode_hash))", rule="TS7")
+V("c13-branch-descend-on-mismatch", "C13", BR, "        if keypath[: len(left_child)] == left_child:\n            yield node\n            yield from _get_branch(db, right_child, keypath[len(left_child) :])\n        else:\n            yield node",
+  "        if keypath[: len(left_child)] != left_child:\n            yield node\n            yield from _get_branch(db, right_child, keypath[len(left_child) :])\n        else:\n            yield node", rule="SIB4")
+V("c13-branch-yield-dropped", "C13", BR, "        if keypath[:1] == BYTE_0:\n            yield node\n            yield from _get_branch(db, left_child, keypath[1:])", "        if keypath[:1] == BYTE_0:\n            yield from _get_branch(db, left_child, keypath[1:])", rule="TS6")
+V("c13-witness-other-child", "C13", BR, "        if keypath[:1] == BYTE_0:\n            yield node\n            yield from _get_witness_for_key_prefix(db, left_child, keypath[1:])", "        if keypath[:1] == BYTE_0:\n            yield node\n            yield from _get_witness_for_key_prefix(db, right_child, keypath[1:])", rule="SIB4")
+V("c13-exist-leaf-prefix-true", "C13", BR, "    if nodetype == LEAF_TYPE:\n        if key_prefix:\n            return False\n        return True", "    if nodetype == LEAF_TYPE:\n        return True", rule="SIB4")
+V("c13-silent-branch-yield-hoisted", "C13", BR, "        if keypath[:1] == BYTE_0:\n            yield node\n            yield from _get_branch(db, left_child, keypath[1:])\n        else:\n            yield node\n            yield from _get_branch(db, right_child, keypath[1:])",
+  "        yield node\n        if keypath[:1] == BYTE_0:\n            yield from _get_branch(db, left_child, keypath[1:])\n        else:\n            yield from _get_branch(db, right_child, keypath[1:])", expect="silent")
+V("c13-trie-nodes-skip-left", "C13", BR, "        yield node\n        yield from get_trie_nodes(db, left_child)\n        yield from get_trie_nodes(db, right_child)", "        yield node\n        yield from get_trie_nodes(db, right_child)", rule="SIB4")
+V("c12-collapse-bit-inverted", "C12", BN, "first_bit = BYTE_1 if new_right_child != BLANK_HASH else BYTE_0", "first_bit = BYTE_0 if new_right_child != BLANK_HASH else BYTE_1", rule="ABS4b")
+V("c12-silent-collapse-bit-by-left", "C12", BN, "first_bit = BYTE_1 if new_right_child != BLANK_HASH else BYTE_0", "first_bit = BYTE_1 if new_left_child == BLANK_HASH else BYTE_0", expect="silent")
+V("c12-branch-order-swapped", "C12", BN, "                newsub = self._hash_and_save(encode_branch_node(oldnode, valnode))\n            else:\n                newsub = self._hash_and_save(encode_branch_node(valnode, oldnode))", "                newsub = self._hash_and_save(encode_branch_node(valnode, oldnode))\n            else:\n                newsub = self._hash_and_save(encode_branch_node(oldnode, valnode))", rule="ABS4b")
+V("c12-kept-head-off", "C12", BN, "encode_kv_node(left_child[:common_prefix_len], newsub)", "encode_kv_node(left_child[: common_prefix_len + 1], newsub)", rule="ABS4b")
